@@ -22,16 +22,11 @@ PLAN = {
     "quick": {"configs": ["ext1", "ext0"], "nshards": 12, "nshards_ext0": 4, "timeout": 900},
     "thorough": {"configs": ["ext1", "ext0"], "nshards": 16, "timeout": 3400, "suite": ["ext1"]},
 }
-DECIDING = ["dt.add", "dt.subtract", "date.add", "date.subtract", "add_duration", "dt.plus_duration",
+DECIDING = ["dt.add", "dt.subtract", "date.add", "date.subtract", "add_duration", "dt.plus_duration", "operators",
             "dt.minus_duration", "date.plus_duration", "date.minus_duration", "threeway", "neg_add_eq_subtract"]
-FLOORS = {"quick": {"dt.add": 50000, "date.add": 10000, "add_duration": 50000, "dt.minus_duration": 10000,
-                    "dt.plus_duration": 10000, "threeway": 10000, "neg_add_eq_subtract": 10000,
-                    "date.minus_duration": 2000},
-          "thorough": {"dt.add": 500000, "date.add": 100000, "add_duration": 500000, "dt.minus_duration": 100000,
-                       "dt.plus_duration": 100000, "threeway": 100000, "neg_add_eq_subtract": 100000,
-                       "date.minus_duration": 20000}}
-REQUIRED_HOOKS = ["DateTime.add", "DateTime.subtract", "Date.add", "Date.subtract", "DateTime._add_timedelta_",
-                  "DateTime._subtract_timedelta", "Date._add_timedelta", "Date._subtract_timedelta"]
+FLOORS = {"quick": {"dt.add": 50000, "date.add": 10000, "threeway": 10000, "neg_add_eq_subtract": 10000, "operators": 10000},
+          "thorough": {"dt.add": 500000, "date.add": 100000, "threeway": 100000, "neg_add_eq_subtract": 100000, "operators": 100000}}
+REQUIRED_HOOKS = ["DateTime.add", "DateTime.subtract", "Date.add", "Date.subtract"]   # private hooks (add_duration, _add_timedelta_ ...) add reach only
 TECHNIQUE = "runtime contracts on add/subtract/operator paths against an independent calendar model (month shift + clamp + C02 normalisation); three-way operator/method agreement checker"
 LEVEL_TEXT = ("every observed calendar add/subtract on DateTime and Date, and every +/- with a Duration or Interval, is judged "
               "against an independent calendar model followed by the tz-database normalisation oracle; workloads aim at "
@@ -385,6 +380,16 @@ def run(M, c):
         return
     if isinstance(D, P.Interval) and D._absolute:
         m2 = m3                    # -d is d for an absolute interval: only dt - d == subtract(components) is required
+    # the operators judged at the boundary against the calendar model (does not depend on any private hook)
+    if not isdate:
+        judge_add(M, "operators", x, [-v for v in cp], m1, "operator-minus" + ("-interval" if isinstance(D, P.Interval) else ""))
+        sg = getattr(D, "_signature", None)
+        if isinstance(D, P.Interval) or (sg is not None and [sg[n] for n in NAMES] == cp):
+            judge_add(M, "operators", x, cp, p1, "operator-plus" + ("-interval" if isinstance(D, P.Interval) else ""))
+    else:
+        e1 = date_model(x, [-v for v in cp])
+        if e1 is not None:
+            M.check("operators", fields(m1) == e1, "C04/operator-minus:date", "Date - duration differs from the calendar model", start=repr(x), d=repr(D), got=repr(m1))
     ok = _same(m1, m2) and _same(m2, m3)
     which = ("m1!=m2 " if not _same(m1, m2) else "") + ("m2!=m3" if not _same(m2, m3) else "")
     M.check("threeway", ok, "C04/threeway:" + ("interval" if isinstance(D, P.Interval) else "duration") + (":date" if isdate else ""),
